@@ -51,7 +51,10 @@ Definition list_append {A} (l : list A) (x : A) : list A := l ++ [x].    (* l.ap
     [re.sub(ALL_COMBOS, "", d)] and [re.findall(WSREGEX, text)] are the scanners of Expand.v *)
 Definition re_sub_all_combos (d : str) : str := strip_star d.
 Definition re_findall_wsregex (text : str) : list str := ws_refs text.
-(** [re.findall(r"\{}\({}(?:\.\w+)?\)".format(self.token, key), item)] is non-empty *)
+(** [re.findall(r"{}\({}(?:\.\w+)?\)".format(re.escape(self.token), key), item)] is non-empty.
+    HYPOTHESIS of this tie: the parameter token is the default ["$"] (the model
+    fixes it; [re.escape("$") = "\$"], so the pattern is [\$\(KEY(?:\.\w+)?\)], the
+    regex [uses_key] scans for); other tokens are covered by C08's correspondence run only *)
 Definition re_param_token_found (key item : str) : bool := uses_key key item.
 
 (* ------------------------------------------------------------------------- *)
